@@ -39,11 +39,18 @@ func execNetworkSimplex(g *graph.DGraph, params graph.Params) {
 		},
 	)
 
+	// the layers of the auxiliary graph are the X coordinates of the node centers: that is what
+	// the minimum edge lengths computed by distCenterPoints separate
+	leftmost := math.Inf(+1)
 	for _, l := range g.Layers {
 		for _, n := range l.Nodes {
 			l.H = max(l.H, n.H)
-			n.X = float64(p.nodes[n].Layer)
+			n.X = float64(p.nodes[n].Layer) - n.W/2
+			leftmost = min(leftmost, n.X)
 		}
+	}
+	for _, n := range g.Nodes {
+		n.X -= leftmost
 	}
 }
 
